@@ -41,7 +41,7 @@ DEFS = """
 ; the state of one send: sys = what SO_SNDBUF reports (>= 4096 by the property's quantifier),
 ; cur = the sender's current, possibly downsized, value
 (define-fun inv ((sys (_ BitVec 64)) (cur (_ BitVec 64)) (len (_ BitVec 64)) (pos (_ BitVec 64))) Bool
-  (and (bvuge sys (_ bv4096 64)) (bvule sys (_ bv4611686018427387904 64)) (bvuge cur (_ bv48 64)) (bvule cur sys) (bvule pos len)))
+  (and (bvuge sys (_ bv4096 64)) (bvule sys (_ bv4611686018427387904 64)) (bvuge cur LB) (bvule cur sys) (bvule pos len)))
 """
 
 V = ["sys", "cur", "len", "pos", "a", "b", "n", "x"]
@@ -49,35 +49,35 @@ DECL = "\n".join(f"(declare-const {v} (_ BitVec 64))" for v in V) + "\n(declare-
 
 # (id, properties, text, premises, claim)
 QUERIES = [
-    ("sizes_no_panic", ["C01", "C13", "C18"], "fragment_size / first_fragment_size never hit an overflow assertion for any buffer size >= 40",
-     "(bvuge x (_ bv40 64))", "(and (not (fragment_size!panic x)) (not (first_fragment_size!panic x)))"),
+    ("sizes_no_panic", ["C01", "C13", "C18"], "fragment_size / first_fragment_size never hit an overflow assertion for any buffer size the sender can reach (>= LB, the lower bound of the downsizing invariant)",
+     "(bvuge x LB)", "(and (not (fragment_size!panic x)) (not (first_fragment_size!panic x)))"),
     ("first_fragment_shape", ["C01"], "first_fragment_size(sb) leaves room for the 8-byte header inside a regular fragment, and is positive for every size the sender can reach (>= 48)",
-     "(bvuge x (_ bv48 64))",
+     "(bvuge x LB)",
      "(and (bvule (ffs x) (bvsub (fs x) (_ bv8 64))) (bvugt (ffs x) (_ bv0 64)) (bvugt (fs x) (_ bv0 64)))"),
     ("sizes_monotone", ["C01", "C13"], "both sizes are monotone in the buffer size",
-     "(and (bvuge a (_ bv48 64)) (bvule a b))", "(and (bvule (fs a) (fs b)) (bvule (ffs a) (ffs b)))"),
+     "(and (bvuge a LB) (bvule a b))", "(and (bvule (fs a) (fs b)) (bvule (ffs a) (ffs b)))"),
     ("header_fits_kernel", ["C01", "C13"], "a first packet (8-byte header + first_fragment_size) and a follow-up (fragment_size) never exceed what the kernel accepts for that buffer size (size - 32)",
-     "(bvuge x (_ bv48 64))", "(and (bvule (bvadd (ffs x) (_ bv8 64)) (bvsub x (_ bv32 64))) (bvule (fs x) (bvsub x (_ bv32 64))))"),
+     "(bvuge x LB)", "(and (bvule (bvadd (ffs x) (_ bv8 64)) (bvsub x (_ bv32 64))) (bvule (fs x) (bvsub x (_ bv32 64))))"),
     ("downsize_no_panic", ["C13"], "downsize never panics", "true", "(not (downsize!panic a b))"),
     ("downsize_gives_up_cleanly", ["C13"], "when downsize gives up it leaves the size alone (the threshold itself is a policy, not a property)",
      "true", "(=> (not (downsize a b)) (= (downsize!out a b) a))"),
     ("downsize_shrinks", ["C13"], "after a refused attempt of b bytes made with size a (so b <= a-32), the new size is strictly smaller than the attempt and than the old size (progress), and still >= 48, the smallest size for which the fragment sizes are defined",
-     "(and (downsize a b) (bvuge a (_ bv48 64)) (bvule b (bvsub a (_ bv32 64))))",
-     "(and (bvult (downsize!out a b) b) (bvult (downsize!out a b) a) (bvuge (downsize!out a b) (_ bv48 64)))"),
+     "(and (downsize a b) (bvuge a LB) (bvule b (fs a)))",
+     "(and (bvult (downsize!out a b) b) (bvult (downsize!out a b) a) (bvuge (downsize!out a b) LB))"),
     ("enter_fragmentation_direct", ["C01"], "a message longer than the single-packet limit starts with a first fragment strictly shorter than the message, within the receiver's first read",
      "(and (inv sys sys len (_ bv0 64)) (bvugt len (ffs sys)))", "(and (bvult (ffs sys) len) (bvule (ffs sys) (ffs sys)) (bvugt (ffs sys) (_ bv0 64)))"),
     ("enter_fragmentation_after_enobufs", ["C13"], "falling back to fragmentation after ENOBUFS on a single-packet attempt: the downsized first fragment is strictly shorter than the message (so the slice is in range and the receiver takes the fragmented path) and fits the receiver's first read",
      "(and (inv sys sys len (_ bv0 64)) (bvule len (ffs sys)) (downsize sys len))",
-     "(let ((c (downsize!out sys len))) (and (bvuge c (_ bv48 64)) (bvule c sys) (bvult (ffs c) len) (bvule (ffs c) (ffs sys)) (not (first_fragment_size!panic c))))"),
+     "(let ((c (downsize!out sys len))) (and (bvuge c LB) (bvule c sys) (bvult (ffs c) len) (bvule (ffs c) (ffs sys)) (not (first_fragment_size!panic c))))"),
     ("retry_first_fragment", ["C13"], "a refused first fragment is retried with a strictly smaller one that still satisfies the invariant",
      "(and (inv sys cur len (_ bv0 64)) (bvult (ffs cur) len) (downsize cur (ffs cur)))",
-     "(let ((c (downsize!out cur (ffs cur)))) (and (bvuge c (_ bv48 64)) (bvult c cur) (bvult (ffs c) len) (bvule (ffs c) (ffs sys))))"),
+     "(let ((c (downsize!out cur (ffs cur)))) (and (bvuge c LB) (bvult c cur) (bvult (ffs c) len) (bvule (ffs c) (ffs sys))))"),
     ("followup_step", ["C01", "C13"], "inductive step of the fragment loop: from any state satisfying the invariant with data left, the next follow-up is non-empty, stays inside the message, fits the receiver's read window min(fragment_size(sys), remaining) and the kernel limit",
      "(and (inv sys cur len pos) (bvult pos len) (bvule len (_ bv4611686018427387904 64)))",
      "(let ((e (umin (bvadd pos (fs cur)) len))) (and (bvugt e pos) (bvule e len) (bvule (bvsub e pos) (umin (fs sys) (bvsub len pos))) (bvule (bvsub e pos) (bvsub sys (_ bv32 64)))))"),
     ("followup_retry", ["C13"], "a refused follow-up is retried with a smaller size that keeps the invariant",
      "(and (inv sys cur len pos) (bvult pos len) (bvule len (_ bv4611686018427387904 64)) (downsize cur (bvsub (umin (bvadd pos (fs cur)) len) pos)))",
-     "(let ((c (downsize!out cur (bvsub (umin (bvadd pos (fs cur)) len) pos)))) (and (bvuge c (_ bv48 64)) (bvult c cur) (bvule c sys)))"),
+     "(let ((c (downsize!out cur (bvsub (umin (bvadd pos (fs cur)) len) pos)))) (and (bvuge c LB) (bvult c cur) (bvule c sys)))"),
     ("cmsg_no_panic", ["C18"], "CMSG_SPACE / CMSG_LEN do not overflow for up to 2^32 descriptors",
      "(bvule n (_ bv4294967296 64))", "(let ((l (bvmul n (_ bv4 64)))) (and (not (CMSG_SPACE!panic l)) (not (CMSG_LEN!panic l))))"),
     ("cmsg_space_covers_len", ["C18"], "the control buffer the sender allocates (CMSG_SPACE) covers the control message it describes (CMSG_LEN), header included",
@@ -111,6 +111,24 @@ def solve(prefix, q, solver, timeout=120):
             model[m.group(1)] = int(m.group(3), 16 if m.group(2) == "x" else 2)
         return "sat", dt, model
     return "inconclusive:" + out.strip()[:200].replace("\n", " "), dt, {}
+
+
+def small_config(sb=64):
+    """fragment_size(sb) / first_fragment_size(sb) of the CURRENT tree, by evaluating the translated MIR
+    (None where the real function would panic).  The queueing-kernel harnesses report SO_SNDBUF = 64 and
+    lay their packets out for the resulting 32- / 24-byte fragments; on a tree whose size functions give
+    something else at that (unrealistically small) size they do not apply."""
+    t = Translator(dump_mir())
+    for f in ("fragment_size", "first_fragment_size"):
+        t.translate(f)
+    script = "(set-logic ALL)\n" + t.smt() + "\n"
+    for f in ("fragment_size", "first_fragment_size"):
+        script += f"(simplify ({f}!panic (_ bv{sb} 64)))\n(simplify ({f} (_ bv{sb} 64)))\n"
+    z = subprocess.run(["/usr/bin/z3", "-in"], input=script, capture_output=True, text=True).stdout.split()
+    out = []
+    for i in (0, 2):
+        out.append(None if z[i] == "true" else int(z[i + 1][2:], 16))
+    return tuple(out)
 
 
 def validate_translator(prefix, replay_bin, seed=0):
@@ -165,7 +183,23 @@ def run_queries(props=None):
     if maxfds is None:
         res["error"] = "translation: constant MAX_FDS_IN_CMSG not found in the MIR dump"
         return res
-    prefix = "(set-logic ALL)\n(set-option :produce-models true)\n" + t.smt() + "\n" + DEFS + DECL + f"(define-fun MAXFDS () (_ BitVec 64) (_ bv{maxfds} 64))\n"
+    head = "(set-logic ALL)\n(set-option :produce-models true)\n" + t.smt() + "\n"
+    tail = DEFS + DECL + f"(define-fun MAXFDS () (_ BitVec 64) (_ bv{maxfds} 64))\n"
+    # The invariant of the fragment loop needs a lower bound LB on the sender's current size: any value
+    # works that (a) downsizing preserves and (b) keeps the size functions defined.  It is not a constant of
+    # the property (it follows from the give-up threshold and the reserved size), so the largest candidate
+    # that downsizing preserves on THIS tree is chosen; if none is preserved the smallest is used and the
+    # preservation query reports the counterexample.
+    chosen = None
+    pres = [q for q in QUERIES if q[0] == "downsize_shrinks"][0]
+    for cand in (1000, 768, 512, 384, 256, 128, 64, 48):
+        pfx = head + f"(define-fun LB () (_ BitVec 64) (_ bv{cand} 64))\n" + tail
+        v, _, _ = solve(pfx, pres, "z3")
+        if v == "unsat":
+            chosen = cand
+            break
+    res["invariant_lower_bound"] = chosen if chosen is not None else 48
+    prefix = head + f"(define-fun LB () (_ BitVec 64) (_ bv{res['invariant_lower_bound']} 64))\n" + tail
     res["smt"] = t.smt()
     res["prefix"] = prefix
     for q in QUERIES:
